@@ -568,6 +568,10 @@ func (r *Ring) UnmarshalJSON(data []byte) (err error) {
 // newRingFromparametersLiteral creates a new Ring from the provided RingParametersLiteral.
 func newRingFromparametersLiteral(p ringParametersLiteral) (r *Ring, err error) {
 
+	if len(p) == 0 {
+		return nil, fmt.Errorf("invalid ring literal: at least one SubRing is needed")
+	}
+
 	r = new(Ring)
 
 	r.SubRings = make([]*SubRing, len(p))
